@@ -733,7 +733,7 @@ func (in *Interp) makeSlice(t types.Type, ln, cp *Term) Value {
 		if in.branch(Lt(cp, ln)) {
 			in.goPanic("runtime error: makeslice: cap out of range")
 		}
-		in.Events = append(in.Events, Event{Kind: "cost", Msg: "make with huge capacity", Where: in.where(), Stack: in.stackNames()})
+		in.Events = append(in.Events, Event{Kind: "cost", Msg: "make with huge capacity", Where: in.where(), Stack: in.stackNames(), Model: in.bigModel()})
 		in.end("alloc", "make cap too large")
 	}
 	et := t.Underlying().(*types.Slice).Elem()
